@@ -143,9 +143,23 @@ def body_formatter(ctx, region):
         raise HarnessError('new_units is not a string built in the slice')
     cells = text.cells
     # shape: {period} since {datetime:%Y-%m-%d %H:%M:%S} <offset text>
-    head = [('opaque', 'period')] + [('lit', c) for c in ' since '] + [('opaque', 'offset_datetime'), ('lit', ' ')]
-    ctx.check(cells[:len(head)] == head, "units have the form '<unit> since <date-time> <offset>'")
-    ctx.check(dt.formats == ['%Y-%m-%d %H:%M:%S'], "date-time part is formatted as 'YYYY-MM-DD HH:MM:SS'")
+    # the date-time part may be written in one piece or in several ({dt.year:04d}-{dt:%m-...}): what counts is the template
+    pre = [('opaque', 'period')] + [('lit', c) for c in ' since ']
+    ctx.check(cells[:len(pre)] == pre, "units have the form '<unit> since <date-time> <offset>'")
+    k, template, pieces = len(pre), '', list(dt.formats)
+    last_dt = max([i for i, c in enumerate(cells) if c == ('opaque', 'offset_datetime')] or [k - 1])
+    while k <= last_dt:
+        if cells[k] == ('opaque', 'offset_datetime'):
+            template += pieces.pop(0) if pieces else '?'
+        elif cells[k][0] == 'lit':
+            template += cells[k][1]
+        else:
+            template += '?'
+        k += 1
+    ctx.check(k < len(cells) and cells[k] == ('lit', ' '), "units have the form '<unit> since <date-time> <offset>'")
+    head = cells[:k + 1]
+    # a zero-padded four-digit year is what YYYY stands for
+    ctx.check(template.replace('{year:04d}', '%Y') == '%Y-%m-%d %H:%M:%S' and not pieces, "date-time part is formatted as 'YYYY-MM-DD HH:MM:SS'")
     off = astsym.Text(cells[len(head):])
     rep = off.representative()
     ctx.note('offset_text_shape', rep)
@@ -356,9 +370,57 @@ def roundtrip_checks(tier):
             if not all((a is None and b is None) or (a is not None and b is not None and a.equals(b)) for a, b in zip(ref, back.ems.polygons)):
                 V('roundtrip:ugrid:in-memory', 'identical polygons after the round trip', f'fill value {fv}')
             back.close()
+        # time axes in other calendars (decoded to cftime objects, not numpy datetimes), and reference instants
+        # before the Gregorian reform in the default calendar: saved all the same, instants unchanged
+        import cftime
+        import netCDF4
+        for tag, build in (
+            ('noleap', lambda: xarray.date_range('2000-02-27', periods=3, calendar='noleap', use_cftime=True)),
+            ('360_day', lambda: xarray.date_range('2000-02-27', periods=3, calendar='360_day', use_cftime=True)),
+            ('epoch-1500', lambda: numpy.array(['2020-01-01T00:00', '2020-01-02T12:00', '2020-01-04T00:00'], dtype='datetime64[ns]')),
+            ('epoch-0800', lambda: numpy.array(['2020-01-01T00:00', '2020-01-02T12:00', '2020-01-04T00:00'], dtype='datetime64[ns]')),
+        ):
+            case = f'roundtrip:cf1d:in-memory:{tag}'
+            try:
+                tv = build()
+            except Exception as e:
+                notes.append(f'{case}: not available ({type(e).__name__})')
+                continue
+            mem = builders.cf1d(2, 3, data_vars={'temp': (('record', 'y', 'x'), numpy.arange(18.0).reshape(3, 2, 3))})
+            mem = mem.assign_coords(time=(('record',), tv))
+            if tag.startswith('epoch'):
+                year = tag.split('-')[1]
+                mem['time'].encoding.update(units=f'days since {year}-01-01T00:00:00+10:00', calendar='proleptic_gregorian', dtype='float64')
+            else:
+                mem['time'].encoding.update(units='days since 1990-01-01 00:00:00', calendar=tag)
+            out = os.path.join(work, f'cf1d-mem-{tag}.nc')
+            try:
+                mem.ems.to_netcdf(out)
+            except Exception as e:
+                V(case, 'saving through the convention succeeds', f'{type(e).__name__}: {e}')
+                continue
+            back = emsarray.open_dataset(out)
+            try:
+                a, b = mem['time'].values, back['time'].values
+                if tag.startswith('epoch'):
+                    # (float64 days since a far epoch resolve a few microseconds)
+                    same_t = len(a) == len(b) and all(abs((x - y) / numpy.timedelta64(1, 'us')) <= 100 for x, y in zip(a, b))
+                else:
+                    same_t = len(a) == len(b) and all((x == y) for x, y in zip(a, b))
+                if not same_t:
+                    V(case, 'identical variable values / time instants after the round trip', f'{list(a)} != {list(b)}')
+                if not numpy.array_equal(mem['temp'].values, back['temp'].values):
+                    V(case, 'identical variable values / time instants after the round trip', 'temp differs')
+            finally:
+                back.close()
+            if tag.startswith('epoch'):
+                with netCDF4.Dataset(out) as B:
+                    tu = B.variables['time'].getncattr('units')
+                    if not re.fullmatch(r'days since \d{4}-\d{2}-\d{2} \d{2}:\d{2}:\d{2} [+-]\d{1,2}(:?\d{2})?', tu):
+                        V(case, "time units have the form '<unit> since YYYY-MM-DD HH:MM:SS <signed offset>'", tu)
+            notes.append(case)
         # variables that were never decoded (built in memory, or opened with mask_and_scale=False) keep what they declare:
         # a missing_value attribute stays, and no _FillValue appears next to it or on a variable that declares nothing
-        import netCDF4
         for conv in ('cf2d', 'ugrid', 'shoc_standard'):
             dims, shape = {'cf2d': (('y', 'x'), (2, 2)), 'ugrid': (('nface',), (3,)), 'shoc_standard': (builders.SHOC_DIMS['face'], (2, 2))}[conv]
             data = {'botz': (dims, numpy.arange(1.0, 1.0 + int(numpy.prod(shape))).reshape(shape), {'missing_value': numpy.float64(-999.0), 'units': 'm'}),
